@@ -271,11 +271,20 @@ class PVLParser(object):
                     parsing = True
                 else:
                     return m
+            except (LexerError, ParseError):
+                # The hook got going, but then ran into a real problem.
+                raise
             except Exception:
                 pass
 
         # print(f'got to bottom: {m}')
-        t = next(tokens)
+        try:
+            t = next(tokens)
+        except StopIteration:
+            raise ParseError(
+                "Expecting an Aggregation Block, an Assignment "
+                "Statement, or an End Statement, but ran out of tokens."
+            )
         tokens.throw(
             ValueError,
             "Expecting an Aggregation Block, an Assignment "
